@@ -6,11 +6,22 @@ PROP = "C02"
 
 def run(tier, seed):
     v = Verdict(PROP, tier, seed)
-    v.assumptions = ["TLC bounds: 2 clients x 2 workers, 3-4 items; main (thread-bound) queue not modelled",
+    v.assumptions = ["TLC bounds: 2 clients x 2 workers, 3-4 items; the thread-bound main queue is modelled in MainQueue.tla and bound at API level only (drv_mainq)",
                      "real executions sample schedules"]
     run_models(v, PROP, ["Q1"] if tier == "quick" else ["Q1", "Q1w", "Q1p", "Q6b"])
     # the repaired defect F1 stays refutable: without the tail check the same spec violates Order
     run_mutants(v, PROP, [("Q1p", "F1"), ("Q1", "sync_does_not_wait")])
+    # the thread-bound main queue (MainQueue.tla): snapshot drain, eventfd wakeup protocol
+    r = tlc_must_pass("MainQueue/M1", "MCMainQueue.tla", "MainQueue_M1.cfg", timeout=1500, metaname="C02_mainq")
+    v.add_model("MainQueue/M1", r)
+    if r.violated:
+        v.violation("MainQueue.tla violates %s" % r.violated, save_replay(PROP, "MainQueue_M1.tlc.out", r.out))
+    mc = os.path.join(rundir(PROP), "MainQueue_mut.cfg")
+    open(mc, "w").write(open(os.path.join(SPEC, "cfg", "MainQueue_M1.cfg")).read().replace('Mut = "none"', 'Mut = "first_push_no_wakeup"').replace("PROPERTY Live\n", ""))
+    r = tlc_must_pass("MainQueue mutant", "MCMainQueue.tla", mc, timeout=600, metaname="C02_mainq_mut")
+    if not r.violated:
+        raise Broken("MainQueue.tla mutant first_push_no_wakeup not refuted")
+    v.notes.setdefault("spec_mutants_refuted", []).append({"mutant": "first_push_no_wakeup", "config": "MainQueue/M1", "by": r.violated})
     dqstate_conformance(v, PROP)
     n = 2 if tier == "quick" else 10
     runs = []
